@@ -6,6 +6,8 @@ another hash algorithm) x {shallow, expand} x {dry, real} x store class
 (+ read-only refusal), compared with a set-difference reference.
 """
 
+CASE_TIMEOUT = 120  # seconds per pool task (the unchanged tree needs a small fraction of this)
+
 import itertools
 import os
 
